@@ -99,11 +99,11 @@ type concReq struct {
 
 // what the plan tells a blocked operation to do
 type concAction struct {
-	answers  int    // how often to answer (0 = never)
-	payload  []byte // distinct per request
-	errText  string // answer with Rerror instead
-	async    bool   // answer from another goroutine after the op returned
-	flushOK  bool   // (FlushOp) call target.Flush()
+	answers int    // how often to answer (0 = never)
+	payload []byte // distinct per request
+	errText string // answer with Rerror instead
+	async   bool   // answer from another goroutine after the op returned
+	flushOK bool   // (FlushOp) call target.Flush()
 }
 
 func (s *concSession) emitL(format string, a ...interface{}) {
@@ -284,11 +284,13 @@ func (s *concSession) hook(point string, obj interface{}, a, b uint32) {
 
 // ---- the scripted implementation ----
 type concOps struct {
-	s        *concSession
-	flushop  bool
-	opened   int
-	closedN  int
-	destroys []uint32
+	s           *concSession
+	flushop     bool
+	opened      int
+	closedN     int
+	destroys    []uint32
+	destroyGate chan bool
+	inDestroy   int
 }
 
 func (o *concOps) reqOf(req *go9p.SrvReq) *concReq {
@@ -342,6 +344,18 @@ func respondAnswer(req *go9p.SrvReq, payload []byte) {
 		req.RespondRstat(&d)
 	case go9p.Tread:
 		req.RespondRread(payload)
+	case go9p.Topen:
+		req.RespondRopen(&go9p.Qid{Type: go9p.QTDIR, Path: uint64(len(payload))}, uint32(len(payload)))
+	case go9p.Tcreate:
+		req.RespondRcreate(&go9p.Qid{Path: uint64(len(payload))}, uint32(len(payload)))
+	case go9p.Tclunk:
+		req.RespondRclunk()
+	case go9p.Tremove:
+		req.RespondRremove()
+	case go9p.Twrite:
+		req.RespondRwrite(uint32(len(payload)))
+	case go9p.Twstat:
+		req.RespondRwstat()
 	default:
 		req.RespondError(&go9p.Error{Err: string(payload), Errornum: 9})
 	}
@@ -395,7 +409,14 @@ func (o *concOps) Wstat(r *go9p.SrvReq)  { o.op(r) }
 func (o *concOps) FidDestroy(f *go9p.SrvFid) {
 	o.s.mu.Lock()
 	o.destroys = append(o.destroys, go9p.VerifFidNum(f))
+	g := o.destroyGate
+	if g != nil {
+		o.inDestroy++
+	}
 	o.s.mu.Unlock()
+	if g != nil {
+		<-g // a slow FidDestroy (Ufs closes the file here)
+	}
 }
 func (o *concOps) ConnOpened(c *go9p.Conn) {}
 func (o *concOps) ConnClosed(c *go9p.Conn) {
@@ -792,6 +813,239 @@ func concDisconnect(maxpend int, k int) string {
 	return s.finish("disc", nil)
 }
 
+// typed request frames for the flush / recycling scenarios
+func typedReq(tk int, tag uint16, fid uint32, nf uint32) []byte {
+	switch tk {
+	case 1:
+		return mkFrame(&gmsg{kind: go9p.Tread, a: uint64(fid), b: 0, c: 16}, true, tag)
+	case 2:
+		return mkFrame(&gmsg{kind: go9p.Twalk, a: uint64(fid), b: uint64(nf), names: [][]byte{[]byte("x")}}, true, tag)
+	case 3:
+		return mkFrame(&gmsg{kind: go9p.Twalk, a: uint64(fid), b: uint64(nf), names: nil}, true, tag)
+	case 4:
+		return mkFrame(&gmsg{kind: go9p.Tattach, a: uint64(nf), b: uint64(go9p.NOFID), s1: []byte("u"), s2: []byte(""), c: 1}, true, tag)
+	}
+	return statReq(tag, fid)
+}
+
+// releases every request with a tag in [lo,hi) as soon as the implementation has it
+func (s *concSession) releaseRange(lo, hi uint16, n int, payload string) {
+	deadline := time.Now().Add(3 * time.Second)
+	done := map[*concReq]bool{}
+	for len(done) < n && time.Now().Before(deadline) {
+		s.mu.Lock()
+		var rel []*concReq
+		for _, cr := range s.reqInfo {
+			if cr.tag >= lo && cr.tag < hi && cr.called && !done[cr] {
+				rel = append(rel, cr)
+			}
+		}
+		s.mu.Unlock()
+		for _, cr := range rel {
+			done[cr] = true
+			cr.released <- concAction{answers: 1, payload: []byte(payload)}
+		}
+		time.Sleep(30 * time.Microsecond)
+	}
+}
+
+// kind "slowwrite": the transport accepts the first reply slowly while another request arrives
+// and is answered: the bytes of the first reply must not change while they are being written
+func concSlowWrite(maxpend int) string {
+	s := newConcSession(maxpend, false)
+	s.setup()
+	// two completed requests first: the connection's reply buffers are being recycled
+	s.send(statReq(300, 0))
+	s.releaseRange(300, 301, 1, "warm-a")
+	s.waitReplies(3, 2*time.Second)
+	s.conn.setHoldWrites(true)
+	s.send(statReq(310, 0))
+	s.releaseRange(310, 311, 1, "first-reply-AAAAAAAAAAAAAAAAAAAAAAAAAAAAAAAAAAAAAAAA")
+	deadline := time.Now().Add(2 * time.Second)
+	for s.conn.writersBlocked() == 0 && time.Now().Before(deadline) {
+		time.Sleep(20 * time.Microsecond)
+	}
+	// the first reply is being written; more requests arrive and are answered meanwhile
+	for i := 0; i < 3; i++ {
+		s.send(typedReq(i%2, uint16(320+i), 0, 0))
+	}
+	s.releaseRange(320, 323, 3, "later-reply-CCCCCCCCCCCCCCCCCCCCCCCCCCCCCCCCCCCCCCCCCCCCCCCC")
+	time.Sleep(500 * time.Microsecond)
+	s.conn.setHoldWrites(false)
+	s.waitReplies(7, 3*time.Second)
+	return s.finish("slowwrite", nil)
+}
+
+// kind "flushq": the target waits behind an older request with the same tag (queued, never
+// started) when the Tflush arrives; every target type, reply buffers recycled from replies of
+// the same type
+func concFlushQueued(maxpend int, flushop bool, tk int) string {
+	s := newConcSession(maxpend, flushop)
+	s.setup()
+	nf := uint32(10)
+	// warm-up: replies of the target's type go through the recycled buffers
+	for i := 0; i < 3; i++ {
+		s.send(typedReq(tk, uint16(600+i), 0, nf))
+		nf++
+		s.releaseRange(uint16(600+i), uint16(601+i), 1, "w")
+		s.waitReplies(3+i, 2*time.Second)
+	}
+	const tt, ft = 700, 701
+	flushed := map[uint16]bool{tt: true}
+	flushCancelTags.Store(uint16(tt), true)
+	s.send(typedReq(tk, tt, 0, nf)) // the older request: handed to the implementation and blocked there
+	older := s.waitReq(tt, 2*time.Second)
+	if older != nil {
+		deadline := time.Now().Add(2 * time.Second)
+		for time.Now().Before(deadline) {
+			s.mu.Lock()
+			c := older.called
+			s.mu.Unlock()
+			if c {
+				break
+			}
+			time.Sleep(20 * time.Microsecond)
+		}
+	}
+	s.send(typedReq(tk, tt, 0, nf+1)) // the target: same tag, queued behind it
+	time.Sleep(300 * time.Microsecond)
+	s.send(flushReq(ft, tt))
+	time.Sleep(500 * time.Microsecond)
+	if older != nil {
+		older.released <- concAction{answers: 1, payload: []byte("older")}
+	}
+	// should the target be started after all, let it finish
+	deadline := time.Now().Add(300 * time.Millisecond)
+	for time.Now().Before(deadline) {
+		s.mu.Lock()
+		var late *concReq
+		for _, cr := range s.reqInfo {
+			if cr.tag == tt && cr != older && cr.called && cr.answers == 0 {
+				late = cr
+			}
+		}
+		s.mu.Unlock()
+		if late != nil {
+			select {
+			case late.released <- concAction{answers: 1, payload: []byte("target-ran")}:
+			default:
+			}
+			break
+		}
+		if len(s.conn.frames()) >= 7 {
+			break
+		}
+		time.Sleep(50 * time.Microsecond)
+	}
+	s.waitReplies(7, time.Second)
+	return s.finish("flushq", flushed)
+}
+
+// kind "slowdestroy": a clunk whose FidDestroy is slow inside the implementation must not delay
+// requests with other tags
+func concSlowDestroy(maxpend int) string {
+	s := newConcSession(maxpend, false)
+	s.setup()
+	s.send(typedReq(3, 800, 0, 50)) // clone fid 0 -> 50
+	s.releaseRange(800, 801, 1, "w")
+	s.waitReplies(3, 2*time.Second)
+	gate := make(chan bool)
+	s.mu.Lock()
+	s.ops.destroyGate = gate
+	s.mu.Unlock()
+	s.send(mkFrame(&gmsg{kind: go9p.Tclunk, a: 50}, true, 810))
+	s.releaseRange(810, 811, 1, "c")
+	deadline := time.Now().Add(2 * time.Second)
+	for time.Now().Before(deadline) {
+		s.mu.Lock()
+		n := s.ops.inDestroy
+		s.mu.Unlock()
+		if n > 0 {
+			break
+		}
+		time.Sleep(20 * time.Microsecond)
+	}
+	before := len(s.conn.frames())
+	for i := 0; i < 3; i++ {
+		s.send(statReq(uint16(820+i), 0))
+	}
+	s.releaseRange(820, 823, 3, "independent")
+	ok := s.waitReplies(before+3, 1500*time.Millisecond)
+	if !ok {
+		s.mu.Lock()
+		s.note("C08.request_delayed_by_slow_FidDestroy_of_another_tag")
+		s.mu.Unlock()
+	}
+	s.mu.Lock()
+	s.ops.destroyGate = nil
+	s.mu.Unlock()
+	close(gate)
+	s.waitReplies(before+4, 2*time.Second)
+	return s.finish("slowdestroy", nil)
+}
+
+// kind "discslow": the client stops reading, so replies pile up behind a blocked Write and at
+// the hand-over to the send goroutine, then it disconnects: every Respond must still finish
+func concDisconnectSlow(maxpend int, k int) string {
+	s := newConcSession(maxpend, false)
+	s.setup()
+	s.conn.setHoldWrites(true)
+	for i := 0; i < k; i++ {
+		s.send(statReq(uint16(900+i), 0))
+	}
+	s.releaseRange(900, uint16(900+k), k, "piled-up")
+	deadline := time.Now().Add(time.Second)
+	for s.conn.writersBlocked() == 0 && time.Now().Before(deadline) {
+		time.Sleep(20 * time.Microsecond)
+	}
+	time.Sleep(time.Duration(100+rng.Intn(400)) * time.Microsecond)
+	s.conn.mu.Lock()
+	s.conn.eof = true
+	s.conn.closed = true // the dead socket fails the blocked Write
+	s.conn.cond.Broadcast()
+	s.conn.mu.Unlock()
+	if !s.waitLabel("DC", 2*time.Second) {
+		s.mu.Lock()
+		s.note("C11.connection_not_closed_after_disconnect")
+		s.mu.Unlock()
+	}
+	return s.finish("discslow", nil)
+}
+
+// kind "discver": a reply is stuck in a Write that then fails (the client is gone) while
+// Tversion frames, which the receive loop answers itself, are still in the receive buffer
+func concDisconnectVersion(maxpend int, nver int) string {
+	s := newConcSession(maxpend, false)
+	s.setup()
+	s.conn.setHoldWrites(true)
+	s.send(statReq(950, 0))
+	s.releaseRange(950, 951, 1, "stuck")
+	deadline := time.Now().Add(time.Second)
+	for s.conn.writersBlocked() == 0 && time.Now().Before(deadline) {
+		time.Sleep(20 * time.Microsecond)
+	}
+	var fr [][]byte
+	for i := 0; i < nver; i++ {
+		fr = append(fr, mkFrame(&gmsg{kind: go9p.Tversion, a: 8192, s1: []byte("9P2000.u")}, false, go9p.NOTAG))
+	}
+	s.conn.mu.Lock()
+	var seg []byte
+	for _, f := range fr {
+		seg = append(seg, f...)
+	}
+	s.conn.segs = append(s.conn.segs, seg)
+	s.conn.eof = true
+	s.conn.closed = true // Write fails from now on; Read still delivers what was received
+	s.conn.cond.Broadcast()
+	s.conn.mu.Unlock()
+	if !s.waitLabel("DC", 2*time.Second) {
+		s.mu.Lock()
+		s.note("C11.connection_not_closed_after_disconnect")
+		s.mu.Unlock()
+	}
+	return s.finish("discver", nil)
+}
+
 func modeSrvconc(tier string, args []string) {
 	rounds := 6
 	if tier == "thorough" {
@@ -819,6 +1073,13 @@ func modeSrvconc(tier string, args []string) {
 				n := n
 				jobs = append(jobs, func() string { return concGroup(mp, n) })
 			}
+			jobs = append(jobs, func() string { return concSlowWrite(mp) })
+			jobs = append(jobs, func() string { return concSlowDestroy(mp) })
+			for tk := 0; tk <= 4; tk++ {
+				tk := tk
+				fo := (r+tk)%2 == 0
+				jobs = append(jobs, func() string { return concFlushQueued(mp, fo, tk) })
+			}
 			if r == 0 {
 				jobs = append(jobs, func() string { return concFlushCycle(mp, false) })
 				jobs = append(jobs, func() string { return concFlushCycle(mp, true) })
@@ -826,6 +1087,12 @@ func modeSrvconc(tier string, args []string) {
 			for k := 0; k <= 4; k++ {
 				k := k
 				jobs = append(jobs, func() string { return concDisconnect(mp, k) })
+				if k >= 2 {
+					jobs = append(jobs, func() string { return concDisconnectSlow(mp, k+1) })
+				}
+				if k >= 1 && k <= 2 {
+					jobs = append(jobs, func() string { return concDisconnectVersion(mp, k) })
+				}
 			}
 		}
 	}
